@@ -217,7 +217,7 @@ impl Dw {
                 self.trace.u((c2.0 as u64) * 4 + (c2.1 as u64) * 2 + c2.2 as u64);
                 self.stats.inc("evaluations");
                 self.nontrivial_c11 = true;
-                if c1 != c2 {
+                if c1 != c2 && self.prop != "C10" {
                     return Err(mk(
                         "C11",
                         "C11.stale_counts",
@@ -247,6 +247,14 @@ impl Dw {
                             self.stats.inc("evaluations_beyond_bound");
                             if live || !dead {
                                 return Err(mk("C10", "C10.not_detected", format!("member still live {silent} ms after its last fresh heartbeat (bound {bound} ms)")));
+                            }
+                            // the observer that also receives equal, lower and replayed heartbeats
+                            if c1.2 && (c1.0 || !c1.1) {
+                                return Err(mk(
+                                    "C10",
+                                    "C10.not_detected",
+                                    format!("member still live {silent} ms after its last fresh heartbeat (bound {bound} ms) on the observer that also receives stale and replayed heartbeats"),
+                                ));
                             }
                         }
                         // accuracy: steady fresh heartbeats are never flagged
